@@ -317,7 +317,25 @@ impl<'a> Run<'a> {
                 }
                 Op::UnknownName { from_rec, salt, all } => {
                     let mut name = match from_rec {
-                        Some(r) => format!("{}{}", b.entries[pick(*r)].name, salt),
+                        Some(r) => {
+                            // near-miss spellings of an existing name (tools map between naming conventions;
+                            // a reader must not), selected by the first salt character; otherwise name + salt
+                            let base = b.entries[pick(*r)].name.clone();
+                            let v = match salt.chars().next() {
+                                Some('a') => Some(format!("chr{}", base)),
+                                Some('b') => base.strip_prefix("chr").map(|s| s.to_string()),
+                                Some('c') => Some(base.to_uppercase()),
+                                Some('d') => Some(base.to_lowercase()),
+                                Some('e') if base.len() > 1 => Some(base[..base.len() - 1].to_string()),
+                                Some('f') if base.len() > 1 => Some(base.chars().skip(1).collect()),
+                                Some('g') => Some(format!("{}.1", base)),
+                                _ => None,
+                            };
+                            match v {
+                                Some(v) if !v.is_empty() && v.is_char_boundary(0) => v,
+                                _ => format!("{}{}", base, salt),
+                            }
+                        }
                         None => salt.clone(),
                     };
                     while b.entries.iter().any(|e| e.name == name) {
@@ -638,6 +656,7 @@ pub fn check(c: &Case) -> R {
 fn name_strat() -> BoxedStrategy<String> {
     prop_oneof![
         3 => proptest::collection::vec(prop_oneof![Just('c'), Just('h'), Just('r'), Just('1'), Just('0'), Just('_')], 1..=5).prop_map(|v| v.into_iter().collect::<String>()),
+        2 => proptest::sample::select(vec!["1", "2", "X", "M", "MT", "chr1", "chr2", "chrX", "chrM", "Chr1", "CHR1", "chr1_random", "1.1", "scaffold_1"]).prop_map(|s| s.to_string()),
         3 => proptest::collection::vec((b'!'..=b'~').prop_map(|b| b as char), 1..=10).prop_map(|v| v.into_iter().collect::<String>()),
         // names starting with a double quote (the .fai must not be read with CSV quoting)
         1 => proptest::collection::vec((b'!'..=b'~').prop_map(|b| b as char), 0..=6).prop_map(|v| format!("\"{}", v.into_iter().collect::<String>())),
